@@ -136,10 +136,13 @@ extern "C" void harness_class_chain() {
 }
 
 // C08 dispatch kernel on a table built by the real buildClassTable:
-//   class A { virtual m() -> int { return 10; }  virtual m(int a) -> int { return 11; } }
-//   class B extends A { override m() -> int { return 20; }  n() -> int { return super.m(); } }
+//   class A { int v;  virtual m() -> int { return 10; }  virtual m(int a) -> int { return 11; }  p(int a) -> int { return 40; }
+//             virtual q() -> int { return 50; }  virtual r() -> int { return this.v; } }
+//   class B extends A { override m() -> int { return 20; }  n() -> int { return super.m(); }  p(long a) -> int { return 41; }
+//                       override q() -> int { return super.q(); }  override r() -> int { return super.r(); } }
 //   class C extends B { override m(int a) -> int { return 31; } }
-// P0 = static class of the variable (0 A, 1 B, 2 C), P1 = dynamic class of the object (>= P0), P2 = call (0: o.m(), 1: o.m(<int>), 2: o.n())
+// P0 = static class of the variable (0 A, 1 B, 2 C), P1 = dynamic class of the object (>= P0),
+// P2 = call (0: o.m(), 1: o.m(<int>), 2: o.n(), 3: o.p(<int>), 4: o.q(), 5: o.r())
 static std::unique_ptr<MethodDeclaration> returning(const char* name, int nparams, bool isVirtual, bool isOverride, std::unique_ptr<Expression> value) {
     auto m = method(name, nparams, isVirtual);
     m->isOverride = isOverride;
@@ -163,11 +166,28 @@ extern "C" void harness_dispatch() {
     static const char* names[3] = {"A", "B", "C"};
     std::unique_ptr<ClassDeclaration> cls[3];
     for (int i = 0; i < 3; ++i) { cls[i] = std::make_unique<ClassDeclaration>(); cls[i]->name = names[i]; }
+    cls[0]->members.push_back(field("v"));
     cls[0]->members.push_back(returning("m", 0, true, false, lit("10")));
     cls[0]->members.push_back(returning("m", 1, true, false, lit("11")));
+    cls[0]->members.push_back(returning("p", 1, false, false, lit("40")));
+    cls[0]->members.push_back(returning("q", 0, true, false, lit("50")));
+    {
+        auto thisV = std::make_unique<MemberAccessExpression>();
+        thisV->object = std::make_unique<ThisExpression>();
+        thisV->member = "v";
+        thisV->line = verif_nd_int(); thisV->column = verif_nd_int();
+        cls[0]->members.push_back(returning("r", 0, true, false, std::move(thisV)));
+    }
     cls[1]->baseName = {"A"};
     cls[1]->members.push_back(returning("m", 0, false, true, lit("20")));
     cls[1]->members.push_back(returning("n", 0, false, false, memberCall(std::make_unique<SuperExpression>(), "m", {})));
+    {
+        auto pl = returning("p", 1, false, false, lit("41"));
+        pl->params[0]->type = std::make_unique<PrimitiveType>("long");
+        cls[1]->members.push_back(std::move(pl));
+    }
+    cls[1]->members.push_back(returning("q", 0, false, true, memberCall(std::make_unique<SuperExpression>(), "q", {})));
+    cls[1]->members.push_back(returning("r", 0, false, true, memberCall(std::make_unique<SuperExpression>(), "r", {})));
     cls[2]->baseName = {"B"};
     cls[2]->members.push_back(returning("m", 1, false, true, lit("31")));
     Program p;
@@ -180,6 +200,10 @@ extern "C" void harness_dispatch() {
         auto obj = std::make_shared<Object>();
         obj->cls = rdyn;
         obj->skipDestructor = true;
+        Value fv;
+        fv.type = Value::Type::Int;
+        fv.intValue = verif_nd_int();
+        obj->fields.push_back(fv);                 // slot 0 = A.v
         ev.beginScope();
         Value o;
         o.type = Value::Type::Object;
@@ -188,21 +212,101 @@ extern "C" void harness_dispatch() {
         ev.m_env.back()["o"] = {o, false, true};
         std::vector<std::unique_ptr<Expression>> args;
         Value argv;
-        if (call == 1) {
+        if (call == 1 || call == 3) {
             // the argument is a variable holding an arbitrary int
             argv.type = Value::Type::Int;
             argv.intValue = verif_nd_int();
             ev.m_env.back()["k"] = {argv, false, true};
             args.push_back(std::make_unique<VariableExpression>("k"));
         }
-        auto e = memberCall(std::make_unique<VariableExpression>("o"), call == 2 ? "n" : "m", std::move(args));
+        auto e = memberCall(std::make_unique<VariableExpression>("o"), call == 2 ? "n" : call == 3 ? "p" : call == 4 ? "q" : call == 5 ? "r" : "m", std::move(args));
         Value r = ev.eval(e.get());
-        int expect = call == 0 ? (dyn == 0 ? 10 : 20) : call == 1 ? (dyn == 2 ? 31 : 11) : 10;
+        int expect = call == 0 ? (dyn == 0 ? 10 : 20) : call == 1 ? (dyn == 2 ? 31 : 11) : call == 2 ? 10 : call == 3 ? 40 : call == 4 ? 50 : fv.intValue;
         verif_assert(r.type == Value::Type::Int, "C08: the call returns the int the selected body returns");
         verif_assert(r.intValue == expect, "C08: a virtual call runs the most-derived override of the receiver's dynamic class for the overload "
-                                           "selected by the argument types; super.m() runs the base version");
+                                           "selected by the argument types (exact match over widening, at any level of the hierarchy); super.m() runs the base version on the same receiver");
         verif_assert(ev.m_env.size() == 1, "C08: the callee's scope is popped");
     }
     for (int i = 0; i < 3; ++i) (void)p.classes[i].release();
+    verif_reach();
+}
+
+// C08 construction order on a table built by the real buildClassTable, driven through the real runConstructorChain:
+//   class A { int t = 1;           constructor() { t = t * 10 + 2; } }
+//   class B extends A { int w = t * 10 + 3;   constructor(int k) { [super();] t = w * 10 + k; } }
+// base constructor (A's initialiser, then A's body), then B's initialiser, then B's body  <=>  w == 123 and t == 1230 + k.
+// P0 = 0: explicit super() as first statement, 1: implicit base construction.  k symbolic (|k| < 1000).
+static std::unique_ptr<Expression> times10plus(const char* v, std::unique_ptr<Expression> add) {
+    auto mul = std::make_unique<BinaryExpression>("*", std::make_unique<VariableExpression>(v), lit("10"));
+    return std::make_unique<BinaryExpression>("+", std::move(mul), std::move(add));
+}
+static std::unique_ptr<Statement> assignStmt(const char* name, std::unique_ptr<Expression> value) {
+    auto as = std::make_unique<AssignmentStatement>();
+    as->name = name;
+    as->value = std::move(value);
+    as->line = verif_nd_int(); as->column = verif_nd_int();
+    return as;
+}
+extern "C" void harness_construct() {
+    const bool implicitSuper = verif_param(0) == 1;
+    auto a = std::make_unique<ClassDeclaration>();
+    a->name = "A";
+    {
+        auto f = field("t");
+        f->initializer = lit("1");
+        a->members.push_back(std::move(f));
+        auto c = std::make_unique<ConstructorDeclaration>();
+        c->body = std::make_unique<BlockStatement>();
+        c->body->statements.push_back(assignStmt("t", times10plus("t", lit("2"))));
+        a->members.push_back(std::move(c));
+    }
+    auto b = std::make_unique<ClassDeclaration>();
+    b->name = "B";
+    b->baseName = {"A"};
+    ConstructorDeclaration* bctor = nullptr;
+    {
+        auto f = field("w");
+        f->initializer = times10plus("t", lit("3"));
+        b->members.push_back(std::move(f));
+        auto c = std::make_unique<ConstructorDeclaration>();
+        auto prm = std::make_unique<Parameter>();
+        prm->name = "k";
+        prm->type = std::make_unique<PrimitiveType>("int");
+        c->params.push_back(std::move(prm));
+        c->body = std::make_unique<BlockStatement>();
+        if (!implicitSuper) {
+            auto es = std::make_unique<ExpressionStatement>();
+            es->expression = std::make_unique<CallExpression>(std::make_unique<SuperExpression>(), std::vector<std::unique_ptr<Expression>>{});
+            c->body->statements.push_back(std::move(es));
+        }
+        c->body->statements.push_back(assignStmt("t", times10plus("w", std::make_unique<VariableExpression>("k"))));
+        bctor = c.get();
+        b->members.push_back(std::move(c));
+    }
+    Program p;
+    p.classes.push_back(std::move(a));
+    p.classes.push_back(std::move(b));
+    RuntimeEvaluator ev(false);
+    ev.buildClassTable(p);
+    RuntimeClass* rb = ev.findClass("B");
+    verif_assert(rb && rb->instanceFields.size() == 2, "C08: B has the inherited field and its own");
+    if (rb && rb->instanceFields.size() == 2) {
+        auto obj = std::make_shared<Object>();
+        obj->cls = rb;
+        obj->skipDestructor = true;
+        obj->fields.resize(2);
+        Value k;
+        k.type = Value::Type::Int;
+        k.intValue = verif_nd_int();
+        verif_assume(k.intValue > -1000 && k.intValue < 1000);
+        ev.runConstructorChain(rb, obj, bctor, {k});
+        verif_assert(obj->fields[1].type == Value::Type::Int && obj->fields[1].intValue == 123,
+                     "C08: a class's field initialisers run after the base constructor has finished and before its own constructor body");
+        verif_assert(obj->fields[0].type == Value::Type::Int && obj->fields[0].intValue == 1230 + k.intValue,
+                     "C08: construction is base-first: base initialisers, base body, own initialisers, own body");
+        verif_assert(ev.m_env.empty(), "C08: constructor scopes are popped");
+    }
+    (void)p.classes[0].release();
+    (void)p.classes[1].release();
     verif_reach();
 }
